@@ -83,6 +83,95 @@ def guarded_step(ep, **kw):
     return r, lines
 
 
+def queued_events_in_every_waiting_state(ctx, res):
+    """kernel events that arrive while the IKE_SA waits for an answer are queued and replayed when the answer comes — in EVERY
+    request-outstanding state, the two in which the IKE_SA is about to end included: the loop must come back (watchdog in History.op)
+    and the session must go on"""
+    import c09
+    rng = ctx.rng
+    waits = [('acquire', 0), ('expire-soft', 0), ('expire-hard', 0), ('rekey-ike', 0), ('delete-ike', 0), ('dpd', 0), ('rekey-ike', 2)]
+    for end in 'AB':
+        for trig, deliver in waits:
+            for events in (['acquire'], ['expire-soft'], ['expire-hard', 'acquire'], ['acquire', 'acquire', 'expire-soft']):
+                seed = rng.randrange(1 << 30)
+                with CP.History(seed, trace=False, dpd=50, ike_lifetime=400, child_lifetime=1000) as h:
+                    h.oracles = [CP.o_no_escape]
+                    w = h.w
+                    if not h.establish('A'):
+                        continue
+                    h.op('acquire', 'A', 4001)
+                    h.settle()
+                    ep = w.A if end == 'A' else w.B
+                    c09.apply_trigger(h, ep, trig)
+                    for _ in range(deliver):                  # 2 deliveries after rekey-ike: the delete of the replaced IKE_SA is in flight
+                        if w.net:
+                            h.op('deliver', w.net[0].id)
+                    waiting = sorted({CP.ST.get(int(x.state), int(x.state)) for x in ep.sas()})
+                    for k, e in enumerate(events):
+                        if e == 'acquire':
+                            h.op('acquire', end, 4300 + k)
+                        else:
+                            c09.apply_trigger(h, ep, e)
+                    h.settle(120)
+                    res.evaluations += len(h.ops)
+                    res.nontrivial.add(('queued', end, trig, deliver, tuple(events)))
+                    res.count('queued-in:%s' % '/'.join(map(str, waiting)))
+                    if not h.findings:
+                        # the daemon keeps serving: one more ACQUIRE ends in an ESTABLISHED IKE_SA with a CHILD_SA at both ends
+                        h.op('tick', 1)
+                        h.op('acquire', 'A', 4400)
+                        h.settle(120)
+                        good = [x for x in w.A.sas() if int(x.state) == 10 and x.child_sas]
+                        goodb = [x for x in w.B.sas() if int(x.state) == 10 and x.child_sas]
+                        if (not good or not goodb) and not h.findings:
+                            h.findings.append(('legitimate-session-lost:after-queued-events',
+                                               'after %s at %s with %s queued, a new ACQUIRE is not served: A %s, B %s'
+                                               % (trig, end, events, [x.state.name for x in w.A.sas()], [x.state.name for x in w.B.sas()]),
+                                               len(h.ops) - 1))
+                    for key, what, at in h.findings[:2]:
+                        res.fail(key, what, {'seed': seed, 'scenario': 'queued events', 'end': end, 'waiting_for': trig, 'events': events,
+                                             'ops': S.ser_ops(h.ops[:at + 1])})
+
+
+def half_open_burst_then_legitimate_peer(ctx, res):
+    """a burst of IKE_SA_INIT requests that are never completed (from a configured address: they create half-open responders and
+    switch the cookie mode on), then a legitimate peer: it must get its IKE_SA and CHILD_SA (after the cookie round)"""
+    rng = ctx.rng
+    for n_burst in (3, 11, 12, 25):
+        seed = rng.randrange(1 << 30)
+        with CP.History(seed, trace=False) as h:
+            h.oracles = [CP.o_no_escape]
+            w = h.w
+            h.op('acquire', 'A', 8765)
+            first = bytes(w.sent[0].data)
+            w.net.clear()
+            for x in list(w.A.sas()):
+                w.A.controller.ike_sas.remove(x)           # the prober gives up
+            r2 = __import__('random').Random(seed)
+            for k in range(n_burst):
+                dg = bytearray(first)
+                dg[0:8] = r2.randbytes(8)                   # another initiator SPI: another half-open IKE_SA at B
+                h.op('inject', 'B', bytes(dg), w.ip_a)
+            w.net.clear()                                   # the answers go nowhere
+            half_open = len(w.B.sas())
+            h.op('tick', 1)
+            h.op('acquire', 'A', 8766)
+            h.settle(120)
+            res.evaluations += len(h.ops)
+            res.nontrivial.add(('burst', n_burst))
+            res.count('burst:%d-half-open' % half_open)
+            good = [x for x in w.A.sas() if int(x.state) == 10 and x.child_sas]
+            goodb = [x for x in w.B.sas() if int(x.state) == 10 and x.child_sas]
+            if (not good or not goodb) and not h.findings:
+                cookies = sum(1 for d in w.sent if d.sender == 'B' and len(d.data) > 28 and d.data[18] == 34 and len(d.data) < 80)
+                h.findings.append(('legitimate-peer-not-served:after-half-open-burst',
+                                   'after %d abandoned IKE_SA_INIT requests (%d half-open IKE_SAs at B) the legitimate peer did not get its '
+                                   'IKE_SA: A %s, B established %d; B sent %d short IKE_SA_INIT replies'
+                                   % (n_burst, half_open, [x.state.name for x in w.A.sas()], len(goodb), cookies), len(h.ops) - 1))
+            for key, what, at in h.findings[:2]:
+                res.fail(key, what, {'seed': seed, 'scenario': 'half-open burst', 'burst': n_burst, 'ops': S.ser_ops(h.ops[:at + 1])})
+
+
 def run(ctx):
     res = Result()
     rng = ctx.rng
@@ -193,6 +282,8 @@ def run(ctx):
                     name, msg, site = ep.escaped[-1]
                     res.fail('loop-died:%s@%s' % (name, site), 'with a %s failure at call %s the event loop of %s ended with %s: %s'
                              % (fault[0], fault[1], ep.name, name, msg[:120]), {'seed': probe_seed, 'fault': list(map(str, fault)), 'ops': S.ser_ops(h.ops)})
+    queued_events_in_every_waiting_state(ctx, res)
+    half_open_burst_then_legitimate_peer(ctx, res)
     # an authentic peer that says unusual things: whatever it says, no entry point may raise afterwards (timers keep running)
     import rogue
     import campaign as CPX
